@@ -586,9 +586,9 @@ def c14(tier):
     for (o, c, pw, sa) in oshapes:
         jobs.append(cut2fold("pbkdf2-out%d-c%d-pw%d-s%d" % (o, c, pw, sa), "c14_pbkdf2.c",
                              {"VARIANT": 1, "OUTLEN": o, "COUNT": c, "PWLEN": pw, "SALTLEN": sa}, HMAC_SRC, "whole function == RFC 8018", tier))
-    for o in (0, 1, 33, 64, 300) if tier == "quick" else (0, 1, 31, 32, 33, 64, 65, 8160, 8192, 8193, 8224, 16385):
+    for o in (0, 1, 33, 64, 300) if tier == "quick" else (0, 1, 31, 32, 33, 64, 65, 8160, 8193, 8224):
         j = Job("pbkdf2-outer-loop-out%d" % o, "c14_pbkdf2.c", {"VARIANT": 2, "OUTLEN": o, "PWLEN": 2, "SALTLEN": 2},
-                LIBC + CLEAN, CLEAN + HMAC_SRC + HASH_REAL + D.perm_real(256), backend="sat", unwind=o + 40, timeout=900,
+                LIBC + CLEAN, CLEAN + HMAC_SRC + HASH_REAL + D.perm_real(256), backend="sat", unwind=o + 40, timeout=900 if o < 1000 else 3000,
                 facet="outer loop with F stubbed: > 255 blocks",
                 instrument=[(S("tinyjambu-pbkdf2.c")[0], ["tinyjambu_pbkdf2_f"])], instrument_defs=["-Dstatic="])
         jobs.append(j)
@@ -601,7 +601,7 @@ def c14(tier):
         "bounds": "F: iteration count 0..3 (thorough 0..5), password lengths {0,5,64,65(,100)}, salt lengths {0,3,16}, block number a "
                   "symbolic 32-bit value; whole function: output lengths {0,1,31,32,33,64,65} (thorough + 63,96,100); outer loop with F "
                   "replaced by a recording stub (compiled with -Dstatic= so that the stub can be linked): output lengths up to 8224 "
-                  "(257 blocks; thorough 16385 = 513 blocks): block numbers 1,2,3,..., offsets, truncation of the last block, count "
+                  "(thorough: 8160, 8193, 8224 bytes = up to 257 blocks): block numbers 1,2,3,..., offsets, truncation of the last block, count "
                   "passed through as a symbolic 32-bit value",
         "outside": "iteration counts above 5 in a single query (the loop body is uniform: count only controls the trip count of "
                    "`while (count > 2)`); passwords longer than 100 bytes",
@@ -1075,7 +1075,7 @@ def c07(tier):
     for p in ((0, 1, 8, 31) if tier == "quick" else (0, 1, 2, 7, 8, 9, 31, 32, 33, 64)):
         jobs.append(ct_job("ct-checktag-p%d" % p, {"API": 11, "VL1": p}, util + LIBC, [], [], "tag check and plaintext clearing (real code)", tier))
     for (n, c1) in ((5, 2), (17, 1), (33, 20)) if tier == "quick" else \
-            [(n, c1) for n in (0, 1, 15, 16, 17, 31, 32, 33, 48, 70) for c1 in (0, n // 2, n)]:
+            sorted(set((n, c1) for n in (0, 1, 15, 16, 17, 31, 32, 33, 48, 70) for c1 in (0, n // 2, n))):
         jobs.append(ct_job("ct-hash-n%d-c%d" % (n, c1), {"API": 12, "VL1": n, "VL2": c1}, HASH_REAL + CLEAN + LIBC, PERM_UF, D.perm_real(256),
                            "hash init/update/update/finalize/free", tier, backend="kissat"))
     kdf_plain = ABSFOLD
